@@ -463,7 +463,7 @@ int main(int argc, char **argv) {
   // 0. fixed corner cases (each once observed to fail on some tree)
   for (const char *l : {"addvar 0 255 1 0 0 c3a9e2", "addvar 0 255 0 0 0 c3a9e2", "addvar 0 255 1 0 7 c3a9f04142c3a9", "addvar 0 255 1 0 7 c3a980",
                         "addvar 0 255 1 0 0 e282ac80", "rtvar 0 2 1 1 20 205 0 c3a9c3a9c3a9", "rtvar 219 255 1 0 20 205 0 c3a9c3a9c3a9",
-                        "rtvar 0 255 1 0 3 205 0 e282ac", "rtvar 0 255 1 0 4 205 0 e282ac", "getvar 1 255 0 205 0 0401c3a9", "getvar 0 255 0 205 0 0400c300",
+                        "rtvar 0 255 1 0 3 205 0 e282ac", "rtvar 0 255 1 0 4 205 0 e282ac", "getvar 1 255 0 205 0 0401c3a9", "getvar 0 255 0 205 0 0400c300", "getvar 0 255 0 205 0 0501414243", "getvar 0 255 0 205 0 0700c300e90041",
                         "getstr 1 3 255 0 205 0 414243", "getstr1 0 0 205 0 -", "addais 223 5 0 4142", "addstr 223 0 255 0 4142"})
     exec(l);
   // 1. small scope, exhaustive: short strings over a small alphabet x small maxima x both policies x both units at tight fill levels
